@@ -35,6 +35,58 @@ class GenList:
         return iter(self.items)
 
 
+class AppendList(SymSeq):
+    """python list that is only appended to, with a symbolic number of elements"""
+
+    def __init__(self, n, get):
+        SymSeq.__init__(self, n, get, kind="list")
+
+    def append(self, v):
+        n0, g0 = self.n, self._get
+        self.n = n0 + 1
+        self._get = lambda k: A._seq_ite(num_eq(lift(k), n0), lambda: v, lambda: g0(k))
+
+
+class PrefixEnum:
+    """order-preserving enumeration of {i in [0,n) : q(i)} with prefix counts (D6-style facts, valid by induction):
+       pref(0) = 0,  pref(i+1) = pref(i) + [q(i)],  q(i) -> pos(pref(i)) = i,
+       r in [0, pref(n)) -> 0 <= pos(r) < n, q(pos(r)), pref(pos(r)) = r;   pref is monotone, 0 <= pref(i) <= i"""
+
+    def __init__(self, eng, n, q, tag="pe"):
+        self.eng, self.n, self.q = eng, n, q
+        self.pos = z3.Function(eng.uniq("pos_" + tag), z3.IntSort(), z3.IntSort())
+        self.pref = z3.Function(eng.uniq("pref_" + tag), z3.IntSort(), z3.IntSort())
+        eng.axiom(self.pref(0) == 0)
+        self.total = Num(self.pref(to_z3(n)))
+        eng.axiom(z3.And(self.total.t >= 0, self.total.t <= to_z3(n)))
+
+    def count_upto(self, i):
+        """pref(i) with the step facts at i"""
+        e = self.eng
+        it = to_z3(i)
+        inb = z3.And(it >= 0, it < to_z3(self.n))
+        qi = e.under(inb, lambda: zb(self.q(Num(it) if not isinstance(i, int) else i)))
+        e.axiom(z3.Implies(inb, z3.And(self.pref(it + 1) == self.pref(it) + z3.If(qi, 1, 0),
+                                       z3.Implies(qi, self.pos(self.pref(it)) == it),
+                                       self.pref(it) >= 0, self.pref(it) <= it, self.pref(it + 1) <= self.total.t)))
+        return Num(self.pref(it))
+
+    def source(self, r):
+        """source index of row r with the enumeration facts at r"""
+        e = self.eng
+        rt = to_z3(r)
+        p = self.pos(rt)
+        inb = z3.And(rt >= 0, rt < self.total.t)
+        qp = e.under(z3.And(inb, p >= 0, p < to_z3(self.n)), lambda: zb(self.q(Num(p))))
+        e.axiom(z3.Implies(inb, z3.And(p >= 0, p < to_z3(self.n), qp, self.pref(p) == rt)))
+        return Num(p)
+
+    def row_of(self, i):
+        """row index of a selected source i"""
+        c = self.count_upto(i)
+        return c
+
+
 class SymSet:
     def __init__(self, mem):
         self.mem = mem      # value -> truth
@@ -684,6 +736,21 @@ def sum_sign(eng, info, label="sum_positive", strict=True):
     return ok
 
 
+def sum_compress(eng, info, f_src, rows_fn, label="sum_compress"):
+    """meta-rule Sigma-compress (trusted, by induction on the source length): for the order-preserving selection
+    `info` (mask over [0,n), D6) and any f:   Sigma_{r < n'} f(pos(r))  ==  Sigma_{i < n} (f(i) if mask(i) else 0).
+    The premise rows_fn(r) == f_src(pos(r)) is proved pointwise (S-obligation); returns (rows_sum, indicator_sum)."""
+    r = Num(z3.Int(eng.uniq("r_cmp")))
+    rng = z3.And(r.t >= 0, r.t < info.n.t)
+    goal = eng.under(rng, lambda: zb(lift(rows_fn(r)) == f_src(info.at(r))))
+    ok = eng.oblige("%s.rows_are_selected_sources" % label, z3.Implies(rng, goal), cls="S")
+    rows_sum = e_sum(eng, info.n, rows_fn, name="RowSum")
+    ind_sum = e_sum(eng, info.n_src, lambda i: ite(info.mask_fn(i), f_src(i), 0.0), name="IndSum")
+    if ok:
+        eng.assume(to_z3(lift(rows_sum)) == to_z3(lift(ind_sum)))
+    return rows_sum, ind_sum
+
+
 def e_sum(eng, n, fn, name="Sigma"):
     """sum_{k<n} fn(k) as Sigma(n) for a recursively defined Sigma (section 4 of DESIGN.md)"""
     cn = iconc(n) if not isinstance(n, int) else n
@@ -973,6 +1040,11 @@ class _NP:
             if isinstance(n, int):
                 return Arr((x.shape[1],), lambda idx: _csum([f((r, idx[0])) for r in range(n)]), dtype=x.kind)
             raise Unsupported("column sums of symbolic height")
+        if x.ndim == 3 and axis in (2, -1):
+            n = x.shape[2]
+            if isinstance(n, int):
+                return Arr(x.shape[:2], lambda idx: _csum([f((idx[0], idx[1], c)) for c in range(n)]), dtype=x.kind)
+            raise Unsupported("sum over a symbolic last axis")
         raise Unsupported("np.sum axis=%r ndim=%d" % (axis, x.ndim))
 
     def prod(self, x):
@@ -1282,6 +1354,9 @@ def getattr_model(eng, obj, name):
             return lambda: list(obj)
         if name == "index":
             raise Unsupported("list.index")
+    if isinstance(obj, AppendList):
+        if name == "append":
+            return obj.append
     if isinstance(obj, dict):
         if name == "get":
             return lambda k, d=None: obj.get(k, d)
